@@ -15,6 +15,9 @@ def suite_histories(suite, tier, seed):
         hs = fsgen.scripted()
         hs += fsgen.random_histories(seed + 7, 12 if quick else 200, 40 if quick else 60)
         return hs, dict(crash=120 if quick else 1000, remount=False)
+    if suite == 'tours':
+        import tours
+        return tours.tour_histories(seed, quick), dict(crash=0, remount=False)
     if suite == 'fault':
         return fsgen.fault_histories(seed, quick), dict(crash=0, remount=False, tlc_timeout=3000)
     if suite == 'mount':
@@ -149,6 +152,11 @@ def run_suite(suite, tier, seed, force=False):
                events=n_events, classes=sorted(map(list, classes)), sample=sample,
                badimage=[b for r in results for b in r.get('badimage', [])],
                scen={h['id']: None for h in hs})
+    if suite == 'tours':
+        import tours
+        total, mism = tours.drift(cdir, hs)
+        res['drift_compared'] = total
+        res['drift'] = mism[:20]
     # keep the scenarios for replay files
     json.dump({h['id']: h for h in hs}, open(os.path.join(cdir, 'histories.json'), 'w'))
     json.dump(res, open(rpath, 'w'))
